@@ -4,6 +4,7 @@ package verifrt
 
 import (
 	"runtime"
+	"time"
 	"encoding/hex"
 	"encoding/json"
 	"fmt"
@@ -166,3 +167,10 @@ func AllocCheck() {
 func MapCandidates(ids []uint32) {}
 func AllocSampling(small, large int) {}
 func Note(s string)        {}
+
+// Yield: scheduling point.  Natively the goroutines run freely; a short pause lets others in.
+func Yield(tag string) { runtime.Gosched() }
+
+// Quiesce: wait until the other goroutines of the scenario have stopped making progress.
+func Quiesce() { time.Sleep(150 * time.Millisecond) }
+func Threads() {}
